@@ -1385,3 +1385,7 @@ M('C17', 'second ufunc output typed like the first', NPYF,
 M('C17', 'product-space binary ufunc decides componentwise by type', 'odl/util/ufuncs.py',
   "                if x2 in self.elem.space:",
   "                if isinstance(x2, type(self.elem)):", 'nested pspace')
+M('C20', 'astype forwards the weighting only of weighted spaces', 'odl/space/base_tensors.py',
+  "            if weighting is not None:\n                kwargs['weighting'] = weighting",
+  "            if weighting is not None and getattr(self, 'is_weighted', True):\n                kwargs['weighting'] = weighting",
+  'C20-R7d')
